@@ -23,15 +23,19 @@ CONSTANTS
   JoinBeforeError,  \* mechanism switch: the front waits for its in-pump also before it reports a backend failure
   Direct,        \* TRUE: no front
   ForwardHalfClose, \* mechanism switch: the in-pump forwards the client's half-close
-  NeedFirstMessage  \* mechanism switch: the front waits for the first client message before opening the backend stream
+  NeedFirstMessage, \* mechanism switch: the front waits for the first client message before opening the backend stream
+  FirstSendEOFFatal \* mechanism switch (with NeedFirstMessage): when the backend has already ended the stream by the time the
+                    \* front forwards the first message, SendMsg answers io.EOF; TRUE = the front returns that as its own error
+                    \* instead of reading the backend's status (F49)
 
 VARIABLE sc      \* the script of this call
 N == sc.n  ReadN == sc.readN  ReplyJ == sc.replyJ  FailAt == sc.failAt
 LockStep == sc.mode = "lockstep"  FailK == sc.failK
 
 EOF == 0        \* half-close marker (messages are 1..N, replies 101.., statuses 1000 / 1001)
-OKm == 1000  ERRm == 1001
-StatusOf(x) == IF x = OKm THEN "OK" ELSE "ERR"
+OKm == 1000  ERRm == 1001  FERRm == 1002   \* FERR: an error of the front's own making, not the backend's status
+Finals == {OKm, ERRm, FERRm}
+StatusOf(x) == IF x = OKm THEN "OK" ELSE IF x = ERRm THEN "ERR" ELSE "FERR"
 VARIABLES c2f, f2b, b2f, f2c,   \* channels (sequences); f2b/b2f unused when Direct
           cpc, csent, cgot, cstatus,
           fpc, inpump, fstatus,
@@ -61,10 +65,10 @@ CHalfClose == /\ cpc = "send" /\ csent = N /\ (LockStep => Len(cgot) >= N)
 CRead == /\ (cpc = "read" \/ (LockStep /\ cpc = "send"))
          /\ LET ch == IF Direct THEN b2f ELSE f2c IN
             /\ ch # <<>>
-            /\ IF Head(ch) \in {OKm, ERRm} THEN cstatus' = StatusOf(Head(ch)) /\ cpc' = "done" /\ UNCHANGED cgot
+            /\ IF Head(ch) \in Finals THEN cstatus' = StatusOf(Head(ch)) /\ cpc' = "done" /\ UNCHANGED cgot
                ELSE cgot' = Append(cgot, Head(ch)) /\ UNCHANGED <<cstatus, cpc>>
             \* lock-step: only one reply is awaited at a time (replies never outrun the sends)
-            /\ (LockStep /\ cpc = "send") => (csent > Len(cgot) \/ Head(ch) \in {OKm, ERRm})
+            /\ (LockStep /\ cpc = "send") => (csent > Len(cgot) \/ Head(ch) \in Finals)
             /\ IF Direct THEN b2f' = Tail(b2f) /\ UNCHANGED f2c ELSE f2c' = Tail(f2c) /\ UNCHANGED b2f
          /\ UNCHANGED <<c2f, f2b, csent, fpc, inpump, fstatus, bpc, bgot, bsent, bstatus>>
 
@@ -114,11 +118,21 @@ FRecvFirst == /\ fpc = "recvFirst"
                  THEN /\ c2f # <<>>
                       /\ IF Head(c2f) = EOF
                          THEN /\ fpc' = "return" /\ fstatus' = "ERR" /\ UNCHANGED f2b   \* RecvMsg -> io.EOF -> handler error
-                         ELSE /\ f2b' = Append(f2b, Head(c2f)) /\ fpc' = "loop" /\ UNCHANGED fstatus
+                         ELSE /\ fpc' = "sendFirst" /\ UNCHANGED <<f2b, fstatus>>   \* cc.NewStream: the backend may start now
                       /\ c2f' = Tail(c2f)
                  ELSE /\ fpc' = "loop" /\ UNCHANGED <<c2f, f2b, fstatus>>
               /\ inpump' = IF fpc' = "loop" THEN "run" ELSE inpump
               /\ UNCHANGED <<b2f, f2c, cpc, csent, cgot, cstatus, bpc, bgot, bsent, bstatus>>
+\* clientStream.SendMsg(first message): a step of its own, the backend runs meanwhile.  Once the backend has ended the
+\* stream the send may answer io.EOF (when the trailers have reached the front's transport; otherwise the message is
+\* written and dropped): the status is then to be had from RecvMsg, i.e. from the out-loop
+FSendFirst == /\ fpc = "sendFirst"
+              /\ \/ /\ f2b' = Append(f2b, 1) /\ fpc' = "loop" /\ inpump' = "run" /\ UNCHANGED fstatus
+                 \/ /\ bpc = "done"
+                    /\ IF FirstSendEOFFatal THEN fpc' = "return" /\ fstatus' = "FERR" /\ UNCHANGED inpump
+                       ELSE fpc' = "loop" /\ inpump' = "run" /\ UNCHANGED fstatus
+                    /\ UNCHANGED f2b
+              /\ UNCHANGED <<c2f, b2f, f2c, cpc, csent, cgot, cstatus, bpc, bgot, bsent, bstatus>>
 \* in-pump goroutine: client -> backend
 FPump == /\ inpump = "run" /\ c2f # <<>>
          /\ IF Head(c2f) = EOF
@@ -129,7 +143,7 @@ FPump == /\ inpump = "run" /\ c2f # <<>>
          /\ UNCHANGED <<b2f, f2c, cpc, csent, cgot, cstatus, fpc, fstatus, bpc, bgot, bsent, bstatus>>
 \* out-loop: backend -> client, until the backend's status
 FOut == /\ fpc = "loop" /\ b2f # <<>>
-        /\ IF Head(b2f) \in {OKm, ERRm}
+        /\ IF Head(b2f) \in Finals
            THEN /\ fstatus' = StatusOf(Head(b2f)) /\ fpc' = (IF Head(b2f) = ERRm /\ ~JoinBeforeError THEN "return" ELSE "join") /\ UNCHANGED f2c
            ELSE /\ f2c' = Append(f2c, Head(b2f)) /\ UNCHANGED <<fstatus, fpc>>
         /\ b2f' = Tail(b2f)
@@ -137,7 +151,7 @@ FOut == /\ fpc = "loop" /\ b2f # <<>>
 \* on success the handler waits for the in-pump (wg.Wait)
 FJoin == /\ fpc = "join" /\ inpump \in {"done", "off"} /\ fpc' = "return"
          /\ UNCHANGED <<c2f, f2b, b2f, f2c, cpc, csent, cgot, cstatus, inpump, fstatus, bpc, bgot, bsent, bstatus>>
-FReturn == /\ fpc = "return" /\ f2c' = Append(f2c, (IF fstatus = "OK" THEN OKm ELSE ERRm)) /\ fpc' = "done"
+FReturn == /\ fpc = "return" /\ f2c' = Append(f2c, (IF fstatus = "OK" THEN OKm ELSE IF fstatus = "ERR" THEN ERRm ELSE FERRm)) /\ fpc' = "done"
            /\ inpump' = IF inpump = "run" THEN "cancelled" ELSE inpump   \* returning cancels the stream context
            /\ UNCHANGED <<c2f, f2b, b2f, cpc, csent, cgot, cstatus, fstatus, bpc, bgot, bsent, bstatus>>
 
@@ -145,7 +159,7 @@ Done == cpc = "done"
 Next == \/ /\ UNCHANGED sc
            /\ (CSend \/ CHalfClose \/ CRead \/ BStart \/ BRead \/ BReadDone \/ BReply \/ BAfterReplies \/ BDrain \/ BFinish
                \/ BEchoRead \/ BEchoReply
-               \/ FRecvFirst \/ FPump \/ FOut \/ FJoin \/ FReturn)
+               \/ FRecvFirst \/ FSendFirst \/ FPump \/ FOut \/ FJoin \/ FReturn)
         \/ (Done /\ UNCHANGED pvars)
 Spec == Init /\ [][Next]_pvars /\ WF_pvars(Next)
 
